@@ -328,6 +328,50 @@ class TypeConversionSpec(OpExecSpec):
         return {"err": toks[0] == "err", "out": parse_ints(toks[1], inst["U"])}
 
 
+class CastIntFloatNullSpec(TypeConversionSpec):
+    """TypeConversionOperator<i64, of64>: the cast batch_merging::combine inserts when the partial results of two partitions
+    disagree on a column's type (integer in one, float in the other).  The in-band integer NULL marker must become the float
+    NULL marker (a NULL partial aggregate stays NULL whatever the layout); every other value is converted as `v as f64`."""
+
+    def instantiations(self, tier):
+        return [{"T": "i64", "U": "of64", "nat": "op_cast_i64_of64"}]
+
+    def op_type(self, inst):
+        return "TypeConversionOperator<i64, of64>"
+
+    def shapes(self, tier, inst):
+        return [0, 2] if tier == "quick" else [0, 1, 3]
+
+    def buffers(self, inst, shape, inp):
+        b = Buffers()
+        b.vec(0, inp["in"], "i64")
+        b.vec(1, [], "ordered_float::OrderedFloat<f64>")
+        return b
+
+    def view(self, inst, shape, value, state):
+        out = [x.fields[0] if isinstance(x, Agg) else x for x in self.out_vec(state, 1)]
+        return {"err": self.result_is_err(value), "out": out}
+
+    def post(self, inst, shape, inp, value, state=None):
+        from ..mirsym.values import cast_int_to_float
+        v = self.view(inst, shape, value, state) if state is not None else value
+        conds = [("never fails", B(not v["err"])), ("one output per row", B(len(v["out"]) == shape))]
+        if len(v["out"]) == shape:
+            for i in range(shape):
+                x = inp["in"][i]
+                is_null = binop("Eq", x, I("i64", (1 << 63) - 1))
+                got = I("u64", v["out"][i].v)
+                conds.append((f"row {i}: the integer NULL marker becomes the float NULL marker", implies(is_null, binop("Eq", got, I("u64", 0x7ffaaaaaaaaaaaaa)))))
+                conds.append((f"row {i}: a value is converted as `v as f64`", implies(bnot(is_null), binop("Eq", got, I("u64", cast_int_to_float(x, "f64").v)))))
+        return conds
+
+    def random_inputs(self, rng, inst, shape):
+        return {"in": [I("i64", rng.choice([(1 << 63) - 1, rnd_int(rng, "i64")])) for _ in range(shape)]}
+
+    def parse_native(self, inst, shape, toks):
+        return {"err": toks[0] == "err", "out": parse_ints(toks[1], "f64")}
+
+
 # ----------------------------------------------------------------------------------------------------
 # C04.f  group compaction after array aggregation: Exists, Compact, NonzeroCompact(+Nullable), NonzeroIndices
 # ----------------------------------------------------------------------------------------------------
